@@ -452,6 +452,28 @@ func propC10(r *Run) {
 		if wedge := w.drain(drainExtra); wedge != "" {
 			r.Fail(wedgeSignature(wedge)+"/after-load", "after the load the agent no longer answers: %s", wedge)
 		}
+		if a.saslPath != "" && r.Choose("long-uptime", 3) == 0 {
+			// ... and after it has been up for a long time: an account put into the directory by the
+			// synchronisation job logs in over the web API (a session is sealed), uses the session
+			// (it is opened), and logs in on the other frontends
+			up := []time.Duration{25 * time.Hour, 8 * 24 * time.Hour, 400 * 24 * time.Hour}[r.Choose("uptime", 3)]
+			time.Sleep(up)
+			r.Logf("clock +%v (uptime)", up)
+			r.Count("probe:long-uptime")
+			def := cfg.SetMap()[cfg.Default]
+			w.fs.Put(cfg.BaseDir+"/zz-late-admin.admin", []byte(RefWrite(def, "late-admin-pw", make([]byte, def.SaltLen()), time.Now().Unix())+"\n"), 0o600)
+			login := &Call{Kind: "authenticate", Via: "api", Agent: a.idx, User: "zz-late-admin", PW: "late-admin-pw"}
+			w.addClient([]*Call{login})
+			w.addClient([]*Call{{Kind: "authenticate", Via: "basic", Agent: a.idx, User: "zz-late-admin", PW: "late-admin-pw"}})
+			if wedge := w.drain(drainExtra); wedge != "" {
+				r.Fail(wedgeSignature(wedge)+"/after-long-uptime", "after %v of uptime the agent no longer answers: %s", up, wedge)
+			}
+			w.addClient([]*Call{{Kind: "list", Via: "api", Agent: a.idx, Session: login.Token}})
+			w.addClient([]*Call{{Kind: "authenticate", Via: "sasl", Agent: a.idx, User: "zz-late-admin", PW: "late-admin-pw"}})
+			if wedge := w.drain(drainExtra); wedge != "" {
+				r.Fail(wedgeSignature(wedge)+"/after-long-uptime", "after %v of uptime the agent no longer answers: %s", up, wedge)
+			}
+		}
 		for k, v := range w.maxQ {
 			if v >= 10 {
 				r.Count("probe:queue-" + k + "-reached-capacity")
